@@ -63,3 +63,8 @@ VARIANTS += [
     V("twin-interp-weights", LI, FORM, "    w = (t - t0) / (t1 - t0)\n    y = (1 - w) * y0 + w * y1\n", expect="silent"),
     V("twin-interp-commuted", LI, FORM, "    y = (t - t0) / (t1 - t0) * y1 + (t1 - t) / (t1 - t0) * y0\n", expect="silent"),
 ]
+
+VARIANTS += [
+    V("twin-interp-endpoint-shortcut", LI, FORM, "    if t == t1:\n        return y1\n" + FORM, expect="silent"),
+    V("interp-near-endpoint-shortcut-absolute", LI, FORM, "    if t1 - t <= 1e-5 * abs(t1):\n        return y1\n" + FORM, rule="R12"),
+]
